@@ -28,6 +28,9 @@ import (
 
 func init() { otherChecks["C11"] = runC11 }
 
+// c11Layer2 is set by the shim build (gate-level interleavings of the streamer).
+var c11Layer2 func(t *testing.T, tier string, deadline time.Time) (map[string]any, []report.Viol, error)
+
 // memConn is an in-memory actions.StreamConnection: the harness plays the
 // streaming client.
 type memConn struct {
@@ -507,6 +510,22 @@ func runC11(t *testing.T, tier string) int {
 		"configurations":                per,
 		"events":                        c11Events,
 		"explanation":                   "for each of 15 flow-control settings: DFS over all event sequences (publish small/big, stream ack, stream nack as modify-deadline 0, stream Nack, external Acknowledge) up to the depth, each replayed on a fresh real MessageStreamer.Go with an in-memory connection and run to quiescence (synctest.Wait) after every event; pruned on repeated quiescent states; the bound is checked at every Send, the no-stall condition at every quiescent point",
+	}
+	if c11Layer2 != nil && os.Getenv("VERIF_NO_SCHED") == "" {
+		c2, v2, err := c11Layer2(t, tier, t0.Add(budget(tier)))
+		if err != nil {
+			fmt.Fprintln(os.Stderr, "C11 harness (interleavings):", err)
+			return 2
+		}
+		for k, v := range c2 {
+			cov[k] = v
+		}
+		if n, ok := c2["interleaving_schedules"].(int); ok {
+			cov["traces_validated_against_impl"] = execs + n
+		}
+		for _, v := range v2 {
+			sink.add(v)
+		}
 	}
 	ev := report.Evidence{PropertyID: "C11", Tier: tier, Seed: report.Seed(), Level: "model_checking", Coverage: cov,
 		Assumptions: []string{"the gRPC streamWrapper (HTTP/2) is not in the loop", "goroutine interleavings inside one event are whatever the Go scheduler does; both oracles are schedule-independent truths", "no clock advance: lease expiry of held messages is not part of the liveness clause"}}
